@@ -120,10 +120,10 @@ func toFields(pkg *Package, t *types.Struct) []*ast.Field {
 
 func toTag(tag string) *ast.BasicLit {
 	var s string
-	if strings.ContainsAny(tag, "`\r\n") {
-		s = strconv.Quote(tag)
-	} else {
+	if strconv.CanBackquote(tag) {
 		s = "`" + tag + "`"
+	} else { // backquote, control characters (a raw string drops \r, NUL is not allowed in source), invalid UTF-8
+		s = strconv.Quote(tag)
 	}
 	return &ast.BasicLit{Kind: token.STRING, Value: s}
 }
